@@ -14,6 +14,8 @@ import Fbr.Lemmas.SrvDecode
 import Fbr.SrvSpec
 import Fbr.Gen.Server
 import Fbr.Lemmas.SrvPairs
+import Fbr.Gen.FsAsync
+import Fbr.Gen.FsSync
 
 namespace Fbr.Thm.C02
 open Fbr.Srv Fbr.Wire
@@ -675,6 +677,33 @@ theorem notify_reply_exact (cfg : Cfg) (fs : Call → Ans) (h : Hdr) (R : Req fs
   rw [handle_reaches_handler cfg fs h R.wf _ R.len R.remapOk, hop]
   unfold handleBody
   simp
+
+/-! ### the `Arc<FS>` wrappers (`api/filesystem/sync_io.rs`, `async_io.rs`)
+
+A server is usually built over `Arc<FS>` (`Server<Arc<Vfs>>`); the wrapper implements the trait by
+hand, method by method.  Over the table regenerated from the source: every method the trait
+declares is implemented by the wrapper (so no trait default silently replaces the file system's
+own method) and forwards to the method OF THE SAME NAME. -/
+
+abbrev FnRow := String × String × String × String × List (String × List String) × List String
+
+def traitMethods (rows : List FnRow) (tr : String) : List String :=
+  rows.filterMap fun r => if r.1 == "trait:" ++ tr then some r.2.2.1 else none
+
+def forwards (rows : List FnRow) (impl tr m : String) : Bool :=
+  rows.any fun r => r.1 == impl && r.2.1 == tr && r.2.2.1 == m && r.2.2.2.2.2.contains ("self.deref()." ++ m)
+
+theorem arc_wrapper_forwards_every_method :
+    (traitMethods Fbr.Gen.fsSyncFns "FileSystem").all (forwards Fbr.Gen.fsSyncFns "Arc<FS>" "FileSystem") = true ∧
+    (traitMethods Fbr.Gen.fsAsyncFns "AsyncFileSystem").all
+      (forwards Fbr.Gen.fsAsyncFns "Arc<FS>" "AsyncFileSystem") = true := by
+  constructor <;> decide +kernel
+
+/-- the table is not empty: 46 and 10 methods -/
+theorem arc_wrapper_table_sizes :
+    (traitMethods Fbr.Gen.fsSyncFns "FileSystem").length = 46 ∧
+    (traitMethods Fbr.Gen.fsAsyncFns "AsyncFileSystem").length = 10 := by
+  constructor <;> decide +kernel
 
 /-- no other file-system operation is invoked: apart from the id-remap, one call -/
 theorem exactly_one_call_example (cfg : Cfg) (fs : Call → Ans) (h : Hdr) (R : Req fs h) (hop : h.op = 14)
